@@ -668,11 +668,12 @@ def build_phase(node, ctx, htf, plug_map=None):
         p = p.with_args(**{a: 'shadowed-by-with_args' for a in names})
     return p
 
-  def apply_monitor(p):
+  def apply_monitor(p, level=0):
     # the phase (with the plugs it requests) is wrapped by a monitor, as in openhtf.core.monitors' documented usage
     from openhtf.core import monitors as _monitors  # pylint: disable=g-import-not-at-top
     name = p.name
-    p = _monitors.monitors('mon_p%d' % pid, _monitor_probe, poll_interval_ms=20 if node.get('monitored') == 'inner' else 50)(p)
+    p = _monitors.monitors('mon_p%d%s' % (pid, '_%d' % level if level else ''), _monitor_probe,
+                           poll_interval_ms=20 if node.get('monitored') == 'inner' else 50)(p)
     return htf.PhaseOptions(name=name)(p)
 
   if node.get('monitored') == 'inner':
@@ -683,6 +684,8 @@ def build_phase(node, ctx, htf, plug_map=None):
   p = apply_plugs(apply_diagnosers(apply_measurements(apply_options(p))))
   if node.get('monitored'):
     p = apply_monitor(p)
+  if node.get('monitored') == 2:
+    p = apply_monitor(p, 1)        # two quantities sampled during one phase: @monitors stacked on @monitors
   return p
 
 
